@@ -119,6 +119,13 @@ func c09Faults(d *Decl, args []string, ref *RefResult) []fault {
 			v := append([]string{}, args...)
 			v[i] = "nosuchcommand"
 			fs = append(fs, fault{"unknown command word", v})
+			// ... and an abbreviation of the command word (no command name or alias)
+			// (R decides what the variant means, should it coincide with another name)
+			if rs := []rune(args[i]); len(rs) > 1 {
+				v2 := append([]string{}, args...)
+				v2[i] = string(rs[:len(rs)-1])
+				fs = append(fs, fault{"abbreviated command word", v2})
+			}
 			fs = append(fs, fault{"command word removed", append(append([]string{}, args[:i]...), args[i+1:]...)})
 		case TcOption:
 			// removal of an occurrence (a required option may go missing)
